@@ -167,6 +167,17 @@ def monitor22(w, rec, res, params):
                           f"frame passed to user space with ethertype "
                           f"{et:#x}, identification datagram says "
                           f"{dispatch.USER_ETHERTYPE:#x}", case=desc)
+    if rec["action"] == dispatch.TX and len(out) >= 14:
+        # a frame that goes back onto the bus is still an EtherCAT frame:
+        # the terminals ignore any other ethertype, and so does the
+        # dispatcher when the frame comes round again
+        et, = struct.unpack_from("!H", out, 12)
+        res.count("frames_sent_back_checked_for_ethertype")
+        if et != 0x88A4:
+            res.violation("unexplained:tx-ethertype",
+                          f"frame sent back to the bus with ethertype "
+                          f"{et:#x} instead of 0x88a4", case=desc)
+            return
     if params["reg"] == "registered":
         run = 0 if rec["ran"] else rec["run_before"] + (
             1 if rec["action"] == dispatch.TX else 0)
